@@ -14,6 +14,7 @@ import warnings
 from hypothesis import strategies as st
 
 import pywbem
+import pywbem_mock
 from pywbem import WBEMConnection
 
 from .runner import Sub, exc_signature
@@ -86,10 +87,22 @@ def g_obs(draw):
 
 def strategy():
     base = c02.strategy()
+    invoke = c02.strategy(ops=['InvokeMethod'])
 
     @st.composite
     def strat(draw):
-        ex = draw(base)
+        # the recorders and the api logger see the arguments of the call:
+        # every eighth case is an InvokeMethod (the operation with the
+        # richest argument types), with one more datetime parameter that the
+        # call builder hands over as a Python datetime/timedelta object
+        if draw(S._I100) < 12:
+            ex = draw(invoke)
+            t, is_arr, v = S._g_typed_value(draw, ['datetime'])
+            ex['call']['args']['kwparams'] = list(
+                ex['call']['args'].get('kwparams', [])) + [
+                    ('K_dt%d' % draw(S._I10), (t, is_arr, v, None))]
+        else:
+            ex = draw(base)
         ex['conn']['stats'] = False
         # more well-formed traffic than in C02
         for r in ex['responses']:
@@ -306,7 +319,14 @@ def _oracle(ctx, ex, obs, prelude=False):
                         'Iter') and (pre is None or pre.count != 1):
                     ctx.fail('statistics:operation-not-counted-once',
                              'prelude: %r' % (pre,))
-            if op.startswith('Iter'):
+            redirected = any(300 <= sp['status'][0] < 400
+                             for sp in ex['responses'])
+            if op.startswith('Iter') and redirected:
+                # requests follows a redirect with further HTTP requests
+                # (with or without the body) that are not further
+                # operations: requests cannot be counted as operations
+                pass
+            elif op.startswith('Iter'):
                 from .xmlserver import request_method_name
                 sent = {}
                 for r in ad1.requests:
@@ -359,7 +379,121 @@ def _oracle(ctx, ex, obs, prelude=False):
         shutil.rmtree(tmpdir, ignore_errors=True)
 
 
+# ---------------------------------------------------------------------------
+# sub-check: mock_observers - the same history of operations on two mock
+# servers built from the same generated repository: one bare, one with
+# statistics, a TestClientRecorder and the loggers switched on
+
+from . import c04 as _c04          # noqa: E402
+from . import repo as _RP          # noqa: E402
+
+
+class _NoTransport:
+    "stands in for the CIM-XML side of the C04 machine (nothing to inspect)"
+    requests = ()
+    seen = ()
+    last = None
+
+
+class MockObservers(_c04.Machine):
+    """
+    The step generator, the execution and the comparison are those of the
+    C04 history machine; side X is a bare FakedWBEMConnection, side B the
+    same repository in a FakedWBEMConnection with observers.  Differences
+    are reported as outcome-differs / result-differs.
+    """
+
+    def init_strategy(self):
+        base = super().init_strategy()
+
+        @st.composite
+        def strat(draw):
+            init = draw(base)
+            init['obs'] = {
+                'stats': draw(S._I10) < 7,
+                'testrec': draw(S._I10) < 6,
+                'log': draw(st.sampled_from(
+                    [None, ('all', 'all'), ('api', 'paths'), ('all', 10),
+                     ('api', 'summary'), ('http', 'all'), ('all', 0)]))}
+            return init
+        return strat()
+
+    def setup(self, init):
+        init = _c04._nocr(init)
+        self.recipe = init['repo']
+        obs = init.get('obs') or {'stats': True, 'testrec': True,
+                                  'log': ('all', 'all')}
+        kw = {}
+        if init['dns'] is not None:
+            kw['default_namespace'] = init['dns']
+        _reset_logging()
+        self._rec_out = io.StringIO()
+        try:
+            self.X = _RP.materialize(self.recipe, **kw)
+        except pywbem.Error as exc:
+            from .runner import HarnessError
+            raise HarnessError('repository recipe rejected: %s' % exc) \
+                from exc
+        # the observed side: everything from the first call on, including the
+        # calls that fill the repository, runs with the observers
+        okw = dict(kw)
+        if obs['stats']:
+            okw['stats_enabled'] = True
+        real_init = pywbem_mock.FakedWBEMConnection.__init__
+        rec_out = self._rec_out
+
+        def observed_init(conn, *a, **k):
+            real_init(conn, *a, **k)
+            if obs['log']:
+                pywbem.configure_logger(obs['log'][0], log_dest='file',
+                                        log_filename=os.devnull,
+                                        detail_level=obs['log'][1],
+                                        connection=conn)
+            if obs['testrec']:
+                conn.add_operation_recorder(
+                    pywbem.TestClientRecorder(rec_out))
+        pywbem_mock.FakedWBEMConnection.__init__ = observed_init
+        try:
+            self.B = _RP.materialize(self.recipe, **okw)
+        finally:
+            pywbem_mock.FakedWBEMConnection.__init__ = real_init
+        for conn in (self.X, self.B):
+            conn._use_pull_operations = init['pull']
+            for a in ('_use_enum_inst_pull_operations',
+                      '_use_enum_path_pull_operations',
+                      '_use_ref_inst_pull_operations',
+                      '_use_ref_path_pull_operations',
+                      '_use_assoc_inst_pull_operations',
+                      '_use_assoc_path_pull_operations',
+                      '_use_query_pull_operations'):
+                setattr(conn, a, init['pull'])
+        self.adapter = _NoTransport()
+        self.facade = _NoTransport()
+        self.dns = self.X.default_namespace
+        self.nss = list(self.recipe['namespaces'])
+        self.classes = [c['name'] for c in self.recipe['classes']] + \
+            ['TST_Echo']
+        self.props = sorted(set(p['name'] for c in self.recipe['classes']
+                                for p in c['props']))
+        self.paths = []
+        for ii, _inst in enumerate(self.recipe['instances']):
+            self.paths.append(self._ipath_recipe(ii))
+        self.sessions = []
+        self.new_id = 0
+        self.ctx.event('observers:stats=%s,testrec=%s,log=%s' % (
+            obs['stats'], obs['testrec'],
+            'off' if not obs['log'] else '%s/%s' % obs['log']))
+
+    def teardown(self):
+        _reset_logging()
+        sup = getattr(super(), 'teardown', None)
+        if sup:
+            sup()
+
+
 SUBCHECKS = [
     Sub('observers', strategy=strategy, oracle=oracle,
         quick=(16, 400), thorough=(16, 15000), case_timeout=120),
+    Sub('mock_observers', machine=MockObservers, quick=(8, 30),
+        thorough=(16, 800), steps=(20, 40), case_timeout=120),
 ]
